@@ -250,9 +250,12 @@ def r17_3(ctx, prog, crate):
     # names: every origin of the names slice
     dn = direct_place(init, ops["names"])
     okn = dn is not None and dn[0] == "call" and dn[1].callee == "core::slice::as_ptr"
-    if ctx.check(okn, "R17.3", ["runner", "names-pointer"], "ErasedArgsSlice.names is not names.as_ptr()", init.where(bi)):
+    # the names are stored as the pointer of the names slice (with the shared len), or as that slice itself
+    names_op = dn[1].args[0] if okn else ops["names"]
+    as_slice = not okn and "[&" in ((ops["names"].get("p") or {}).get("ty") or "").replace("'static ", "")
+    if ctx.check(okn or as_slice, "R17.3", ["runner", "names-pointer"], "ErasedArgsSlice.names is not names.as_ptr()", init.where(bi)):
         kinds = []
-        for o in origins(init, dn[1].args[0]):
+        for o in origins(init, names_op):
             if o[0] == "call":
                 c = o[1]
                 if c.callee == "std::boxed::Box::leak":
@@ -349,6 +352,8 @@ def r17_4(ctx, prog, crate):
     if ctx.anchor("R17.4", "ErasedArgsSlice::names", 1 if nm else 0, 1):
         frp = [c for c in nm.live_calls() if c.callee == "std::slice::from_raw_parts"]
         ok = len(frp) == 1 and {z.label() for z in nm.prov.op_src(frp[0].args[0])} == {"param:self.names"} and {z.label() for z in nm.prov.op_src(frp[0].args[1])} == {"param:self.len"}
+        # or the stored slice handed back as it is
+        ok = ok or (not frp and not nm.live_calls() and {z.label() for z in nm.prov.local_src(0)} == {"param:self.names"})
         ctx.check(ok, "R17.4", ["names", "names-and-len"], "names() is not from_raw_parts(self.names, self.len)", nm.where(0))
     bn = prog.body("benchmark::args::bench", crate)
     if ctx.anchor("R17.4", "args::bench", 1 if bn else 0, 1):
